@@ -39,7 +39,7 @@ class Fault(object):
 
 class PipeCore(object):
     def __init__(self, dev, rec=None, clock=None, frag=None, wcap=None, stall='raise', tick=0.0, default_timeout=10.0, fault=None,
-                 log_io=False, exc_timeout=None, rtype=None, write_none=False):
+                 log_io=False, exc_timeout=None, rtype=None, write_none=False, exclusive=False):
         self.dev = dev
         self.rec = rec or dev.rec
         self.clock = clock or VClock()
@@ -52,6 +52,7 @@ class PipeCore(object):
         self.log_io = log_io
         self.rtype = rtype        # what bulk_read hands out: None (bytes) | 'bytearray' | 'array' (array('B'), as PyUSB does) | 'memoryview' (a view of a receive buffer that is reused by the next read)
         self._rbuf = None
+        self.exclusive = exclusive     # like a claimed USB interface: connect() on a transport that was not closed fails with EBUSY
         self.write_none = write_none   # a sendall-style transport: bulk_write sends everything and returns None (the library still accepts that)
         self.exc_timeout = exc_timeout or timeout_class()
         self.cur = b''
@@ -123,6 +124,9 @@ class PipeCore(object):
 
     def connect(self, timeout):
         self._call('connect', timeout)
+        if self.exclusive and self.connected:
+            import errno
+            raise OSError(errno.EBUSY, 'the transport is still open (it was never closed): resource busy')
         self.dev.on_connect()
         self.cur = b''
         self.cur_meta = None
